@@ -192,6 +192,19 @@ def insert_panic_hooks(text, relpath, log):
                 elif p1.startswith("} else") or p1 == "else {":
                     kind = 7
             if kind == 0:
+                # structural fallback: what the surrounding code is doing (independent of names and messages)
+                ctx = "\n".join(lines[max(0, i - 14):i])
+                if relpath == "injector_core/common.rs" and "mprotect(" in ctx:
+                    kind = 3
+                elif relpath == "injector_core/common.rs" and ("mmap" in ctx or "start_address" in ctx) and "VirtualAlloc" not in ctx:
+                    kind = 4
+                elif relpath == "injector_core/patch_arm64.rs" and ("offset" in ctx or "RANGE" in ctx):
+                    kind = 5
+                elif relpath == "interface/verifier.rs":
+                    kind = 8
+                elif relpath == "interface/injector.rs" and "signature" in ctx:
+                    kind = 2 if "bool" in ctx else 1
+            if kind == 0:
                 msg = st
                 if '"' not in msg and i + 1 < len(lines):
                     msg += lines[i + 1]
@@ -200,7 +213,41 @@ def insert_panic_hooks(text, relpath, log):
             out.append("%scrate::verif_rt::on_panic(%d, %d);" % (indent, kind, i + 1))
             log.append({"rule": "T4", "file": relpath, "line": i + 1, "kind": kind, "fn": fn})
         out.append(line)
-    return "\n".join(out)
+    text2 = "\n".join(out)
+    # expression-position panics (`_ => panic!(..)`, `unwrap_or_else(|| panic!(..))`, ...): wrap the macro call
+    # into a block that calls the hook first: `{ on_panic(k, line); panic!(..) }` has type `!` like the call itself
+    pieces = []
+    pos = len(text2)
+    for m in reversed(list(re.finditer(r"panic!\(", text2))):
+        ls = text2.rfind("\n", 0, m.start()) + 1
+        before = text2[ls:m.start()]
+        if before.strip() == "" or before.lstrip().startswith("//") or "on_panic(" in before:
+            continue  # statement position (already hooked) or a comment
+        if m.start() >= 2 and text2[m.start() - 2:m.start()] == "::":
+            continue
+        try:
+            end = match_brace(text2, m.end() - 1)
+        except LostAnchor:
+            continue
+        lineno = text2.count("\n", 0, m.start()) + 1
+        ctx_lines = text2[:m.start()].split("\n")
+        fn = enclosing_fn(ctx_lines, len(ctx_lines) - 1)
+        kind = PANIC_BY_FN.get((relpath, fn), 0)
+        if kind == 0:
+            ctx = "\n".join(ctx_lines[-15:])
+            if relpath == "injector_core/common.rs" and "mprotect(" in ctx:
+                kind = 3
+            elif relpath == "injector_core/patch_arm64.rs" and ("offset" in ctx or "RANGE" in ctx):
+                kind = 5
+            elif relpath == "interface/verifier.rs":
+                kind = 8
+            elif relpath == "interface/injector.rs" and "signature" in ctx:
+                kind = 2 if "bool" in ctx else 1
+            else:
+                kind = panic_kind(text2[m.start():end])
+        text2 = text2[:m.start()] + "{ crate::verif_rt::on_panic(%d, %d); " % (kind, lineno) + text2[m.start():end] + " }" + text2[end:]
+        log.append({"rule": "T4", "file": relpath, "line": lineno, "kind": kind, "fn": fn, "position": "expression"})
+    return text2
 
 
 def extract(work, modules, macos=False, big_arena=False, contracts=None, extra_files=None, extra_cfgs=None):
